@@ -260,7 +260,8 @@ void runFpProbe(const Opts& o, long idx, CaseLog& log) {
     uint32_t pb = base[idx % (sizeof base / sizeof base[0])]; if (idx >= 48) pb = (uint32_t)r.below(0x7f800000u);
     int k = (int)(1 + (idx / 12) % 4) + (idx >= 48 ? (int)r.below(6) : 0);
     float pr = bitsf(pb), ar = pr * (float)k; if ((idx / 3) % 5 == 4 && pb < 0x00800000u) ar = bitsf(pb * (uint32_t)k);     // also: k times the BIT pattern (exact for subnormals)
-    if (!(ar <= 3.4028234e38f && ar >= 0.f)) ar = pr;      // k x (a rate near the top of the float range) overflows to infinity: not a rate (the ratio inf/x has no integer value; converting it is undefined and differs between compilers)
+    if (!(ar <= 3.4028234e38f && ar >= 0.f)) ar = pr;
+    if (idx % 24 == 23) { pr = bitsf(0x7fc00000u); ar = pr; }   // a NaN rate: compares unequal to 0, so frames are taken; every build must make the same of it      // k x (a rate near the top of the float range) overflows to infinity: not a rate (the ratio inf/x has no integer value; converting it is undefined and differs between compilers)
     ezc3d::c3d c; std::ostringstream tr;
     { Outcome oc; Param p("RATE"); p.set(std::vector<float>(1, pr)); VF_TRY(oc, c.parameter("POINT", p)); tr << "prate:" << oc.cls; }
     { Outcome oc; Param p("RATE"); p.set(std::vector<float>(1, ar)); VF_TRY(oc, c.parameter("ANALOG", p)); tr << " arate:" << oc.cls; }
